@@ -118,6 +118,7 @@ func c03Ops(s []int) []ref.Op {
 
 func checkC03(c *core.Ctx) {
 	defer sweepC03(c)
+	defer selfCases(c, false, "elementwise", "compare")
 	defer soakC03(c)
 	defer gridC03(c)
 	sameOperandSequence(c, "sameoperand", [][]int{{3}, {2, 3}, {2, 1, 3}, {5, 2}}, c03Ops, false)
@@ -341,6 +342,7 @@ func checkEquals(a, b *ref.T) core.Verdict {
 
 func checkC04(c *core.Ctx) {
 	defer sweepC04(c)
+	defer selfCases(c, false, "linalg")
 	defer soakC04(c)
 	defer gridC04(c)
 	composeCases(c, "compose", composeShapes, consumersLinalg, false)
